@@ -43,8 +43,10 @@ ScenariosOf(g) ==
                               !.grid = [j \in 1..Len(g) |-> IF j = 1 THEN 0 ELSE g[j] * U + jit]] :
                  s \in NonDecSeqs(PosOf(g), MaxT), d \in BOOLEAN, jit \in {-1, 0, 1} }
       [] Family = "events" ->
-            { [Base(g) EXCEPT !.evs = <<e>>, !.dense = d] :
-                 e \in EvFns(PosOf(g), MaxRoots, {"All", "Pos", "Neg"}, {0, 1, 2}), d \in {TRUE} }
+            \* with no requested times, or with one requested time only at the end of the grid (the first reported
+            \* point then lies after x0: event bookkeeping must not depend on what has been reported so far)
+            { [Base(g) EXCEPT !.evs = <<e>>, !.hasT = tv, !.teval = IF tv THEN <<g[Len(g)] * U>> ELSE <<>>] :
+                 e \in EvFns(PosOf(g), MaxRoots, {"All", "Pos", "Neg"}, {0, 1, 2}), tv \in BOOLEAN }
       [] Family = "events2" ->
             { [Base(g) EXCEPT !.evs = <<e1, e2>>] :
                  e1 \in { e \in EvFns(PosOf(g), 1, {"All", "Pos"}, {0, 1}) : e.sgn = 1 },
